@@ -40,7 +40,7 @@ class Check(BaseCheck):
                 specs.append({'campaign': 'amp', 'n': 5000, 'seed': seed, 'i': i})
         else:
             for i in range(32):
-                specs.append({'campaign': 'pairs', 'draws': 90, 'seed': seed, 'i': i})
+                specs.append({'campaign': 'pairs', 'draws': 160, 'seed': seed, 'i': i})
                 specs.append({'campaign': 'amp', 'n': 40000, 'seed': seed, 'i': i})
         return specs
 
